@@ -353,6 +353,23 @@ let handle_debug (toks : string list) : string =
     String.concat "|" (List.map devent_str evs) ^ "|END:" ^ dend_str e
   | _ -> "bad:args"
 
+(* ---- command line ---- *)
+(* cli <level> <fuel> <0|1|u> <file bytes> <stdin bytes> *)
+let handle_cli (toks : string list) : string =
+  match toks with
+  | lv :: ms :: ext :: rest ->
+    let fb = (match rest with [] -> "" | t :: _ -> if t = "-" then "" else t) in
+    let sb = (match rest with _ :: t :: _ -> t | _ -> "") in
+    let file = if ext = "u" then FUnreadable else FBytes (ext = "1", cps_of_field fb) in
+    let r = run_cli (n_of_int (int_of_string lv)) file (cps_of_field sb) (nat_of_int (int_of_string ms)) in
+    (match r with
+     | CExit (c, o, e) -> Printf.sprintf "exit:%s|o=%s|e=%s" (nstr c) (dotted o) (dotted e)
+     | CDiag (k, o, e) -> Printf.sprintf "diag:%s|o=%s|e=%s"
+                            (match k with DgFile -> "file" | DgExt -> "ext" | DgUtf8File -> "utf8file" | DgUtf8Stdin -> "utf8stdin" | DgEnc n -> "enc:" ^ nstr n)
+                            (dotted o) (dotted e)
+     | CPanic -> "panic" | CRunning -> "running")
+  | _ -> "bad:args"
+
 let () =
   try
     while true do
@@ -371,6 +388,7 @@ let () =
           | "spec" :: "pre" :: rest -> handle_spec_pre rest
           | "repl" :: rest -> handle_repl rest
           | "debug" :: rest -> handle_debug rest
+          | "cli" :: rest -> handle_cli rest
           | ("opt" | "optpin" as w) :: "run" :: rest -> handle_opt_run w rest
           | ("opt" | "optpin" as w) :: "state" :: rest -> handle_opt_state w rest
           | "spec" :: "run" :: rest -> handle_spec_run rest
